@@ -445,6 +445,11 @@ int add_mod_src(m_mod_t *mod, m_src_types type, const void *src_data,
         }
         return ret;
     }
+    /* A refused (duplicate) registration must not close the user's descriptor nor free the user's pointer */
+    src->flags &= ~M_SRC_AUTOFREE;
+    if (!(flags & M_SRC_DUP)) {
+        src->flags &= ~M_SRC_FD_AUTOCLOSE;
+    }
     m_mem_unref(src);
     return ret;
 }
